@@ -440,6 +440,22 @@ func runC08(r *evid.Run) {
 		roundTrip("fps16f8", 16, p, true)
 		roundTrip("fxps16f8", 16, p, true)
 	}
+	// fixed point of widths that are not multiples of 8 (the top byte of the pattern is partial)
+	for _, ty := range []struct {
+		name string
+		bits int
+	}{{"fps11f5", 11}, {"fxps11f5", 11}, {"fps12f6", 12}, {"fxps12f6", 12}, {"fps20f10", 20}, {"fxps20f10", 20}, {"fxps9f4", 9}, {"fxps27f13", 27}} {
+		if created, err := bmnumbers.EventuallyCreateType(ty.name, nil); err != nil || !created {
+			if bmnumbers.GetType(ty.name) == nil {
+				continue // the type family is not available in this tree
+			}
+		}
+		for i := 0; i < r.Pick(120, 3000); i++ {
+			roundTrip(ty.name, ty.bits, uint64(rng.Int63())&(1<<uint(ty.bits)-1), true)
+		}
+		roundTrip(ty.name, ty.bits, 1<<uint(ty.bits)-1, true)
+		roundTrip(ty.name, ty.bits, 1<<uint(ty.bits-1), true)
+	}
 	r.Set("bit_patterns_round_tripped", patterns)
 	r.Set("patterns_that_are_not_values", nonvalues)
 	r.Set("states", states)
